@@ -24,8 +24,19 @@
   (ryu as a specified parameter, `RyuSpec`) reads back bit-exactly in the exactness window (default
   build) or always (other build); witnesses `atomRT_float_window_needed` (1e-23 is one ulp off in
   the default build, allowed by the property) and `C05_out_of_range_fast_counterexample`.
-  Not covered by a theorem: the 2^-50 bound outside the exact region in the default build and
-  written exponents beyond i32 (both carried by the exact-value oracle and the correspondence).
+  Accuracy clause (LexprModel/Proofs/Accuracy.lean with AccuracyRn, AccuracyFast, AccuracyLit,
+  AccuracyTrunc, AccuracyEx; imported here; values as core `Rat`): `rn_relerr` / `rn_abserr` — one
+  rounding is within 2^-53 relative in the normal range and 2^-1075 absolute below it;
+  `C05_accuracy_fast(_tight)` — whatever the fast path returns for `sig * 10^e` (sig < 2^64, any
+  exponent) is finite and within 2^-50 relative + 2^-1074 absolute (in fact 6*2^-53 and
+  1.125*2^-1075) of the exact value, given the table is correctly rounded (`tab_rounded`, from the
+  regenerated table); `C05_accuracy_nofast` (2^-53 without fast-float-parsing);
+  `C05_accuracy_parts`, `C05_accuracy_literal`, and `C05_accuracy_any_literal` — a decimal literal
+  of ANY length (the truncation of over-long significands included) reads as a finite double within
+  that bound of its exact value, or is rejected as NumberOutOfRange at its end; kernel-evaluated
+  instances equal to the bits the real code returns (1e-23, 5e-324, 1e-320, 18446744073709551616.5, …).
+  Not covered by a theorem: written exponents beyond i32 (carried by the exact-value oracle and the
+  correspondence), and that acceptance is complete near f64::MAX (known finding).
   Proved here, against the table regenerated from the code on this run: every `POW10`
   entry is the correctly rounded power of ten and the first 23 are exact (the premise of the
   exactness region |exponent| ≤ 22); and basic facts of the rounding function.
@@ -33,6 +44,7 @@
 import LexprModel.TablesCheck
 import LexprModel.Proofs.Numbers
 import LexprModel.Proofs.Decimals
+import LexprModel.Proofs.Accuracy
 namespace Lexpr
 namespace F64
 
@@ -61,4 +73,16 @@ example : rn 1 1 = 0x3FF0000000000000 ∧ rn 1 10 = 0x3FB999999999999A ∧ rn 5 
   decide +kernel
 
 end F64
+
+/-- **C05_accuracy** (the accuracy clause of the property, default build, the table regenerated from
+    the code on this run): whatever `f64_from_parts` returns for a non-zero significand below 2^64 and
+    any exponent is a finite double within relative error 2^-50 (plus 2^-1074 for results in the
+    subnormal range) of `sig * 10^e`. -/
+theorem C05_accuracy {sig : Nat} {e : Int} {f : Nat} (hs0 : sig ≠ 0) (hs64 : sig < 2 ^ 64)
+    (h : Accuracy.fastReal sig e = some f) :
+    f < F64.infBits ∧
+    Accuracy.dec sig e * (1 - Accuracy.c50) - Accuracy.a1074 ≤ Accuracy.val f ∧
+    Accuracy.val f ≤ Accuracy.dec sig e * (1 + Accuracy.c50) + Accuracy.a1074 :=
+  Accuracy.C05_accuracy_fast_real hs0 hs64 h
+
 end Lexpr
